@@ -18,6 +18,7 @@ Inductive draw :=
 | DChoice (n size : Z) (idxs : list Z)              (* np.random.choice(n, size, replace=True)  -> idxs *)
 | DChoiceNoRepl (n size : Z) (idxs : list Z)        (* np.random.choice(a, size, replace=False), len a = n;
                                                        recorded as the chosen positions          *)
+| DChoice1 (n : Z) (i : Z)                          (* np.random.choice(n)  (scalar, no size)   -> i    *)
 | DNormal (size : Z) (vals : list Q).               (* np.random.normal(0, h, size) -> vals (h not modelled) *)
 
 Inductive err := EValueError | EZeroDivision | EBadHistory.
@@ -73,6 +74,13 @@ Definition choice_norepl (n size : Z) : M (list Z) := fun h =>
   if (size <? 0)%Z || ((n <=? 0)%Z && negb (size =? 0)%Z) || (n <? size)%Z then Err EValueError else
   match h with
   | DChoiceNoRepl _ _ idxs :: r => Ok (idxs, r, [DChoiceNoRepl n size idxs])
+  | _ => Err EBadHistory
+  end.
+(* choice(n) without size: one index; "a must be greater than 0" *)
+Definition choice1 (n : Z) : M Z := fun h =>
+  if (n <=? 0)%Z then Err EValueError else
+  match h with
+  | DChoice1 _ i :: r => Ok (i, r, [DChoice1 n i])
   | _ => Err EBadHistory
   end.
 Definition normal (size : Z) : M (list Q) := fun h =>
@@ -171,6 +179,17 @@ Definition single_pass_sampling (size n : Z) (p : Q) : M (list Z) :=
 Definition one_over (n : Z) : M Q :=
   if (n =? 0)%Z then raise EZeroDivision else ret (1 / inject_Z n).
 
+(* "if not np.any(ks): ks[np.random.choice(n)] = 1" — at least one scored sample of the class *)
+Definition all_zero (ks : list Z) : bool := forallb (Z.eqb 0) ks.
+Fixpoint set_at (i : nat) (v : Z) (ks : list Z) : list Z :=
+  match ks, i with
+  | [], _ => []
+  | _ :: r, O => v :: r
+  | k :: r, S j => k :: set_at j v r
+  end.
+Definition fix_empty (n : Z) (ks : list Z) : M (list Z) :=
+  if all_zero ks then i <- choice1 n ;; ret (set_at (Z.to_nat i) 1%Z ks) else ret ks.
+
 Record sidx := mkSidx { pos_idx : list Z; neg_idx : list Z; s_easy_pos : Z; s_easy_neg : Z }.
 
 Definition sample_indices (s : scores) (by_label single_pass : bool) : M sidx :=
@@ -180,6 +199,8 @@ Definition sample_indices (s : scores) (by_label single_pass : bool) : M sidx :=
     nb_pos_selected <- single_pass_sampling (nb_hard_pos s) (c_hard_pos c) pp ;;
     pn <- one_over (nb_hard_neg s) ;;
     nb_neg_selected <- single_pass_sampling (nb_hard_neg s) (c_hard_neg c) pn ;;
+    nb_pos_selected <- fix_empty (nb_hard_pos s) nb_pos_selected ;;
+    nb_neg_selected <- fix_empty (nb_hard_neg s) nb_neg_selected ;;
     ret (mkSidx (repeat_idx 0 nb_pos_selected) (repeat_idx 0 nb_neg_selected) (c_easy_pos c) (c_easy_neg c))
   else
     pi <- choice (nb_hard_pos s) (c_hard_pos c) ;;
@@ -247,6 +268,7 @@ Definition draw_ok (d : draw) : Prop :=
   | DPoissonVec size lam ks => len ks = size /\ Forall (fun k => (0 <= k)%Z) ks
   | DChoice n size idxs => len idxs = size /\ Forall (in_range n) idxs
   | DChoiceNoRepl n size idxs => len idxs = size /\ Forall (in_range n) idxs /\ NoDup idxs
+  | DChoice1 n i => in_range n i
   | DNormal size vals => len vals = size
   end.
 
@@ -259,6 +281,7 @@ Definition draw_mean (d : draw) : Q :=
   | DPoissonVec _ lam _ => lam
   | DChoice n size _ => inject_Z size / inject_Z n
   | DChoiceNoRepl n size _ => inject_Z size / inject_Z n
+  | DChoice1 _ _ => 0            (* a position, not a count: no mean is claimed *)
   | DNormal _ _ => 0
   end.
 
@@ -266,6 +289,8 @@ Definition draw_mean (d : draw) : Q :=
 Definition sp_call (size n : Z) (ks : list Z) : draw :=
   if (n <? 100)%Z then DBinomVec size n (1 / inject_Z size) ks
   else DPoissonVec size (inject_Z n * (1 / inject_Z size)) ks.
+(* a draw made by the single-pass at-least-one correction *)
+Definition is_fixup (d : draw) : Prop := match d with DChoice1 _ _ => True | _ => False end.
 (* the index list 0, 1, ..., n-1 (np.arange(n)) *)
 Definition zseq (n : nat) : list Z := map Z.of_nat (seq 0 n).
 
@@ -291,6 +316,7 @@ Definition draw_close (tol : Q) (a b : draw) : bool :=
   | DPoissonVec sz l ks, DPoissonVec sz' l' ks' => Z.eqb sz sz' && Qclose tol l l' && zl_eqb ks ks'
   | DChoice n sz ix, DChoice n' sz' ix' => Z.eqb n n' && Z.eqb sz sz' && zl_eqb ix ix'
   | DChoiceNoRepl n sz ix, DChoiceNoRepl n' sz' ix' => Z.eqb n n' && Z.eqb sz sz' && zl_eqb ix ix'
+  | DChoice1 n i, DChoice1 n' i' => Z.eqb n n' && Z.eqb i i'
   | DNormal sz _, DNormal sz' _ => Z.eqb sz sz'
   | _, _ => false
   end.
